@@ -12,6 +12,7 @@ def run(tier, seed, limit=0):
         scs = scs[:limit]
     chk.run_scenarios(scs, "Trace_VscRand",
                       nontrivial=lambda r: any(e.get("fired") or e.get("exc") not in (None, "none") for e in r["events"]))
+    chk.run_mc("B_Ctor", {"MaxOps": 3 if tier == "quick" else 4}, label="construction stacks idle between calls")
     return chk.finish(LEVEL, "histories with a user exception injected at every kind of position (pre/post callbacks of any composite, "
                       "with-block bodies, constraint bodies during construction) and calls made unsatisfiable, followed by further "
                       "constructions, calls and pin-probe truth tables; after EVERY event TLC checks the five construction stacks, the "
